@@ -5,7 +5,10 @@ CONSTANTS
   MaxTxn = 2
   MaxFlush = 2
   MaxReload = 1
-  MaxRestart = 1
+  MaxRestart = 0
   MaxScrape = 1
+  MaxCollect = 0
+  FileSel = {1, 2, 3}
+  FlowSel = {1, 4}
 INVARIANTS Accept
 CHECK_DEADLOCK FALSE
